@@ -924,7 +924,13 @@ class KmipEngine(object):
             elif attribute_name == "Sensitive":
                 field = "sensitive"
 
-            if field:
+            if field and not hasattr(managed_object, field):
+                raise exceptions.InvalidField(
+                    "Cannot set the {0} attribute on this object.".format(
+                        attribute_name
+                    )
+                )
+            elif field:
                 existing_value = getattr(managed_object, field)
                 if existing_value:
                     if existing_value != value:
@@ -1993,7 +1999,14 @@ class KmipEngine(object):
             )
 
         managed_object_factory = factory.ObjectFactory()
-        managed_object = managed_object_factory.convert(secret)
+        try:
+            managed_object = managed_object_factory.convert(secret)
+        except TypeError as e:
+            # The factory refuses objects it cannot store, e.g. a symmetric
+            # key in a key format other than Raw.
+            raise exceptions.InvalidField(
+                "The object cannot be registered: {0}".format(e)
+            )
         managed_object.names = []
 
         self._set_attributes_on_managed_object(
